@@ -107,6 +107,24 @@ func c04Exercise(c *core.C, input []byte, label string) bool {
 			c.Cover("inputs-accepted-by-auto-parse")
 		}
 	}
+	// the registered parsers themselves (what GetFormatUnserializer hands out), not only through the Reader
+	for _, ft := range c04Formats {
+		u, uerr := reader.GetFormatUnserializer(ft)
+		if uerr != nil || u == nil {
+			c.Violatef("registered-parser-missing", string(ft), "no parser registered for %s: %v", ft, uerr)
+			ok = false
+			continue
+		}
+		if guard(c, "Unserialize", det, func() { doc, err = u.Unserialize(bytes.NewReader(input), &native.UnserializeOptions{}, nil) }) {
+			ok = false
+			continue
+		}
+		c.Evals(1)
+		if s := shapeOK(doc, err); s != "" {
+			c.Violatef("driver-shape-"+s, det, "the registered %s parser returned %s (doc=%v err=%v) on %s", ft, s, doc != nil, err, label)
+			ok = false
+		}
+	}
 	for _, ft := range c04Formats {
 		ft := ft
 		if guard(c, "ParseStreamWithOptions", det, func() {
@@ -158,7 +176,7 @@ func init() {
 		Rule: "inputs, in fixed case ranges: (1) EVERY single schema fault (null, 5 wrong types, empty, absent, duplicated, oversized, negative number, object nested into itself) at EVERY JSON path of four hand-written representative documents (full-featured SPDX 2.3, CycloneDX 1.4, 1.5, nested components with duplicate/missing refs); " +
 			"(2) double faults: PRNG-chosen pairs (quick 20 000; thorough 1.2 M); (3) byte-prefix truncations of the representative documents (quick every 7th, thorough every one); (4) random bytes and JSON token soups; " +
 			"(5) nesting of arrays/objects/components to depth 10 000; (6) size series k=4,8,16,20,24,32 for every array path and for component nesting. " +
-			"Every input goes through SniffReader, ParseStream and ParseStreamWithOptions for each of the 7 registered formats inside a supervised child: recover() catches panics, the parent attributes a dead child to the logged case, " +
+			"Every input goes through SniffReader, ParseStream, ParseStreamWithOptions for each of the 7 registered formats and each registered parser called directly, inside a supervised child: recover() catches panics, the parent attributes a dead child to the logged case, " +
 			"the return-shape predicate (document XOR error; metadata and node list present) is checked, and the cost monitor (bytes allocated + CPU time, never wall time) flags local growth exponents above 3.5 on two consecutive size steps. " +
 			"distinct = hash of the input bytes; non-trivial = every input counts (each is a different byte string).",
 		Assumptions: []string{"'all byte strings' is sampled; the systematic part is the single/double fault space of the representative documents", "polynomial time is decided on allocation and CPU-time growth exponents, with a 10 CPU-second / 6 GB per-input watchdog (re-run alone with 10x margin before a hang is reported)"},
